@@ -316,7 +316,7 @@ def traj_scenario(c, k):
         elif ev[0] == "restart":
             seg += 1
             f = "c%d_%d.state" % (k, seg)
-            L += ["flush", "save text %s" % f, "prefix c%ds%d" % (k, seg), "fresh"] + conf() + ["load %s" % f]
+            L += ["flush", "save %s %s" % (c.get("fmt", "text"), f), "prefix c%ds%d" % (k, seg), "fresh"] + conf() + ["load %s" % f]
     L += ["flush", "echo END %d" % k]
     return L
 
@@ -823,6 +823,15 @@ def check_traj_case(run, c, k, impl_lines, scratch, model):
     return ncmp
 
 
+BIG_STEPS = [2 ** 31 - 3, 2 ** 31, 2 ** 32 - 2, 2 ** 32 + 5, 2 ** 53 - 1, 2 ** 53 + 2, 2 ** 62 - 4000]      # (the OCaml driver reads 63-bit integers)
+
+
+def big_step(r, freq=1):
+    """a first step around 2^31, 2^32, 2^53, 2^62, sometimes moved onto a multiple of freq"""
+    b = r.choice(BIG_STEPS)
+    return b - (b % freq) if r.random() < 0.5 else b
+
+
 def gen_traj_case(r, tier):
     nv = r.choice([1, 1, 2, 2, 3])
     vars_ = []
@@ -891,8 +900,8 @@ def gen_traj_case(r, tier):
         if b:
             biases.append(b)
             bid += 1
-    freq = r.choice([1, 1, 2, 2, 3, 4, 5])
-    it0 = r.choice([0, 0, freq * r.randint(1, 5), freq * r.randint(1, 5) + 1, 1000 * freq - r.randint(0, 4), r.randint(1, 40)])
+    freq = r.choice([1, 1, 2, 2, 3, 4, 5, 6, 7, 12])
+    it0 = r.choice([0, 0, freq * r.randint(1, 5), freq * r.randint(1, 5) + 1, 1000 * freq - r.randint(0, 4), r.randint(1, 40), big_step(r, freq)])
     dt = r.choice([0.5, 1.0, 2.0])
     nsteps = r.randint(5, 12) if tier == "quick" else r.randint(5, 30)
     events = []
@@ -948,7 +957,7 @@ def gen_traj_case(r, tier):
                 events.append(["step", newpos()])
                 continue
         elif u < 0.36:
-            freq2 = r.choice([1, 2, 3, 4])
+            freq2 = r.choice([1, 2, 3, 4, 6, 7])
             events.append(["freq", freq2])
         elif u < 0.42:
             events.append(["restart"])
@@ -969,7 +978,7 @@ def gen_traj_case(r, tier):
                 add_step_forces(e)
             prev = e
     return {"kind": "traj", "freq": freq, "it0": it0, "dt": dt, "vars": vars_, "biases": biases, "events": events, "eforce": eforce,
-            "lagged": r.random() < 0.3}
+            "lagged": r.random() < 0.3, "fmt": r.choice(["text", "binary"])}
 
 
 def gen_traj_big(r, tier):
@@ -1006,7 +1015,7 @@ def runave_scenario(c, k):
         elif ev[0] == "restart":
             seg += 1
             f = "c%d_%d.state" % (k, seg)
-            L += ["flush", "save text %s" % f, "prefix c%ds%d" % (k, seg), "fresh"] + conf + ["load %s" % f]
+            L += ["flush", "save %s %s" % (c.get("fmt", "text"), f), "prefix c%ds%d" % (k, seg), "fresh"] + conf + ["load %s" % f]
     L += ["flush", "echo END %d" % k]
     return L
 
@@ -1074,7 +1083,7 @@ def runave_oracle(L, stride, xs, tmax):
 def check_runave_case(run, c, k, impl_lines, scratch, model):
     segs = segments_of(c)
     replay = {"kind": "runave", "case": c}
-    lines = ["RUNAVE %d %d %d %d %s" % (c["L"], c["stride"], s["it_restart"], len(s["hist"]), " ".join("%d %s" % (t, hx(x)) for t, it, x in s["hist"]))
+    lines = ["RUNAVE %d %d %d %d %s" % (c["L"], c["stride"], 0, len(s["hist"]), " ".join("%d %s" % (t, hx(x)) for t, it, x in s["hist"]))
              for s in segs]
     rc, mout, err = V.run_lines(model, lines)
     if rc != 0 or len(mout) != len(segs):
@@ -1120,7 +1129,7 @@ def check_runave_case(run, c, k, impl_lines, scratch, model):
         for part in mout[si].split(" ; "):
             t = part.split()
             if t:
-                mrows.append((int(t[0]), [float.fromhex(t[1]), float.fromhex(t[3])]))
+                mrows.append((int(t[0]) + s["it_restart"], [float.fromhex(t[1]), float.fromhex(t[3])]))
         if [st for st, _ in rows] != [st for st, _ in mrows]:
             run.mismatch("runave:steps", c, [st for st, _ in rows][:12], [st for st, _ in mrows][:12])
             continue
@@ -1139,7 +1148,7 @@ def gen_runave_case(r, tier):
     n = r.randint(L * stride, L * stride * 3 + 4)
     if tier != "quick":
         n += r.randint(0, 30)
-    it0 = r.choice([0, 0, r.randint(1, 50)])
+    it0 = r.choice([0, 0, r.randint(1, 50), big_step(r, stride)])
     events = [["step", V.dyadic(r, -8, 8, 3)]]
     for _ in range(n):
         u = r.random()
@@ -1150,7 +1159,7 @@ def gen_runave_case(r, tier):
             events += [["restart"], ["step", last]]
         else:
             events.append(["step", V.dyadic(r, -8, 8, 3)])
-    return {"kind": "runave", "L": L, "stride": stride, "it0": it0, "events": events}
+    return {"kind": "runave", "L": L, "stride": stride, "it0": it0, "events": events, "fmt": r.choice(["text", "binary"])}
 
 
 
@@ -1212,7 +1221,7 @@ def runavev_scenario(c, k):
         elif ev[0] == "restart":
             seg += 1
             f = "c%d_%d.state" % (k, seg)
-            L += ["flush", "save text %s" % f, "prefix c%ds%d" % (k, seg), "fresh"] + heredoc(["colvarsTrajFrequency 0"] + dummy + main) + ["load %s" % f]
+            L += ["flush", "save %s %s" % (c.get("fmt", "text"), f), "prefix c%ds%d" % (k, seg), "fresh"] + heredoc(["colvarsTrajFrequency 0"] + dummy + main) + ["load %s" % f]
     L += ["flush", "echo END %d" % k]
     return L
 
@@ -1302,7 +1311,7 @@ def check_runavev_case(run, c, k, impl_lines, scratch, model):
     lines = []
     for s in segs:
         dim = len(s["hist"][0][2]) if s["hist"] else 1
-        lines.append("RUNAVEV %s %d %d %d %d %d %s" % (kind, c["L"], c["stride"], s["it_restart"], dim, len(s["hist"]),
+        lines.append("RUNAVEV %s %d %d %d %d %d %s" % (kind, c["L"], c["stride"], 0, dim, len(s["hist"]),
                                                      " ".join("%d %s" % (t, " ".join(hx(q) for q in x)) for t, it, x in s["hist"])))
     rc, mout, err = V.run_lines(model, lines)
     if rc != 0 or len(mout) != len(segs):
@@ -1371,7 +1380,7 @@ def check_runavev_case(run, c, k, impl_lines, scratch, model):
         for part in mout[si].split(" ; "):
             t = part.split()
             if t:
-                mrows.append((int(t[0]), [float.fromhex(q) for q in t[1].split(",")], float.fromhex(t[3])))
+                mrows.append((int(t[0]) + s["it_restart"], [float.fromhex(q) for q in t[1].split(",")], float.fromhex(t[3])))
         if [r_[0] for r_ in rows] != [r_[0] for r_ in mrows]:
             run.mismatch("runave:steps", c, [r_[0] for r_ in rows][:12], [r_[0] for r_ in mrows][:12])
             continue
@@ -1390,7 +1399,7 @@ def gen_runavev_case(r, tier):
     stride = r.choice([1, 2, 2, 3])
     t0 = r.choice([0, 0, 1, 2, 3, 5])
     n = t0 + L * stride + r.randint(2, 2 * L * stride + 4) + (r.randint(0, 30) if tier != "quick" else 0)
-    it0 = r.choice([0, 0, r.randint(1, 30)])
+    it0 = r.choice([0, 0, r.randint(1, 30), big_step(r, stride)])
     center = V.dyadic(r, -4, 4, 2)
 
     def val():
@@ -1424,7 +1433,7 @@ def gen_runavev_case(r, tier):
             events += [["restart"], list(last)]
         else:
             events.append(["step", val()])
-    return {"kind": "runavev", "vtype": vt, "L": L, "stride": stride, "t0": t0, "it0": it0, "events": events}
+    return {"kind": "runavev", "vtype": vt, "L": L, "stride": stride, "t0": t0, "it0": it0, "events": events, "fmt": r.choice(["text", "binary"])}
 
 
 
@@ -1663,10 +1672,10 @@ def check_out_case(run, c, k, impl_lines, scratch, model):
 
 
 def gen_out_case(r, tier):
-    R = r.choice([0, 0, 2, 3, 4])
+    R = r.choice([0, 0, 2, 3, 4, 6, 7])
     nb = r.choice([0, 1, 2])
-    biases = [(b, r.choice([0, 1, 2, 3, 5])) for b in range(nb)]
-    it0 = r.choice([0, 0, r.randint(1, 12)])
+    biases = [(b, r.choice([0, 1, 2, 3, 5, 6, 7])) for b in range(nb)]
+    it0 = r.choice([0, 0, r.randint(1, 12), big_step(r, max(R, 1))])
     n = r.randint(2, 10) + (r.randint(0, 20) if tier != "quick" else 0)
     events = []
     for i in range(n):
@@ -1686,6 +1695,8 @@ def gen_out_case(r, tier):
     elif u < 0.8:
         c["opes"] = {"p": r.choice([1, 2, 3]), "q": r.choice([1, 2, 3]), "F": r.choice([0, 2, 3])}
         c["biases"] = []
+        if c["it0"] > 10 ** 6:
+            c["it0"] = r.randint(1, 12)    # OPES files carry the time step*dt/1000 as a 6- or 15-digit float: no step resolution there
     return c
 
 
@@ -1822,7 +1833,7 @@ def check_disk_case(run, c, k, impl_lines, scratch, model):
 
 
 def gen_disk_case(r, tier):
-    return {"kind": "disk", "freq": r.choice([1, 1, 2, 3]), "R": r.choice([0, 2, 3, 4, 5]), "it0": r.choice([0, 0, r.randint(1, 20), 999]),
+    return {"kind": "disk", "freq": r.choice([1, 1, 2, 3, 7]), "R": r.choice([0, 2, 3, 4, 5, 6]), "it0": r.choice([0, 0, r.randint(1, 20), 999, big_step(r)]),
             "vel": r.random() < 0.5, "xs": [V.dyadic(r, -4, 4, 3) for _ in range(r.randint(3, 12))]}
 
 
